@@ -24,10 +24,19 @@ MAX_REPLAY_FILES = 12
 MAX_PER_RULE = 3
 
 
+_INIT_ERROR = None
+
+
 def _worker_init(build_dir, kind):
+    """never raises: a worker that dies in its initializer is re-spawned for ever by the pool;
+    a tree that cannot even be imported turns every case into a driver_exception instead"""
+    global _INIT_ERROR
     from . import rt
 
-    rt.init(build_dir, kind)
+    try:
+        rt.init(build_dir, kind)
+    except BaseException as e:  # noqa
+        _INIT_ERROR = "the %s build of bt cannot be imported: %r" % (kind, e)
 
 
 class WorkerError(object):
@@ -40,6 +49,8 @@ class WorkerError(object):
 
 def _call(args):
     modname, fname, item = args
+    if _INIT_ERROR is not None:
+        return WorkerError(_INIT_ERROR, "crash")
     try:
         mod = importlib.import_module(modname)
         return getattr(mod, fname)(item)
